@@ -1,6 +1,7 @@
 package c07
 
 import (
+	"encoding/hex"
 	"encoding/json"
 	"fmt"
 	"testing"
@@ -169,6 +170,23 @@ func genCase(t *rapid.T, v variant) *caseSpec {
 			c.Pos = nLead
 		}
 	}
+	// what the stream legitimately carries: the whole, well-formed parameter-set units of the valid packets
+	seenPS := map[string]bool{}
+	for _, u := range vs.Units {
+		if t := g.codec.NalType(u.Bytes); (g.codec == esgen.H264 && (t == esgen.H264SPS || t == esgen.H264PPS)) || (g.codec == esgen.H265 && t >= esgen.H265VPS && t <= esgen.H265PPS) {
+			if h := hex.EncodeToString(u.Bytes); !seenPS[h] {
+				seenPS[h] = true
+				c.LegitPS = append(c.LegitPS, h)
+			}
+		}
+	}
+	if c.NoSprop && c.Pos <= nLead {
+		for _, h := range c.Hostile {
+			if h.Ch == rtp.ChannelVideo {
+				c.PSNotJudged = "hostile video packet ahead of the first good in-band parameter sets of a stream without sprop sets"
+			}
+		}
+	}
 	c.SettleMs = rapid.SampledFrom([]int{0, 0, 0, 0, 0, 1, 5}).Draw(t, "settleMs")
 	planProbe(c)
 	return c
@@ -195,6 +213,9 @@ func genHostile(t *rapid.T, g *genState, c *caseSpec) (string, pkt) {
 		h := rapid.SampledFrom(table).Draw(t, "const")
 		return video("payload-const:"+h.Name, h.B)
 	case k == 3:
+		if rapid.IntRange(0, 2).Draw(t, "hostilePS?") > 0 {
+			return video(hostileParameterSet(t, g.codec))
+		}
 		b := rapid.SliceOfN(rapid.Byte(), 0, 3).Draw(t, "short")
 		return video(fmt.Sprintf("payload-short:%d", len(b)), b)
 	case k <= 6:
@@ -301,6 +322,54 @@ func min(a, b int) int {
 		return a
 	}
 	return b
+}
+
+// hostileParameterSet: a damaged SPS / PPS (/ VPS) unit — the real one cut at a
+// generated length, with one bit flipped, or 1..3 bytes long — as a single NAL
+// unit packet, alone in an aggregate, or in an aggregate behind / in front of a
+// good slice.
+func hostileParameterSet(t *rapid.T, codec esgen.Codec) (string, []byte) {
+	reals := [][]byte{esgen.RealH264SPS, esgen.RealH264PPS}
+	if codec == esgen.H265 {
+		reals = [][]byte{esgen.RealH265VPS, esgen.RealH265SPS, esgen.RealH265PPS}
+	}
+	real := rapid.SampledFrom(reals).Draw(t, "psWhich")
+	typ := codec.NalType(real)
+	var ps []byte
+	var how string
+	switch rapid.IntRange(0, 2).Draw(t, "psDamage") {
+	case 0:
+		ps = append([]byte{}, real[:rapid.IntRange(codec.HeaderLen(), len(real)-1).Draw(t, "psCut")]...)
+		how = "truncated"
+	case 1:
+		ps = append([]byte{}, real...)
+		o := rapid.IntRange(codec.HeaderLen(), len(real)-1).Draw(t, "psFlipAt")
+		ps[o] ^= 1 << uint(rapid.IntRange(0, 7).Draw(t, "psFlipBit"))
+		how = "bit-flipped"
+	default:
+		ps = append([]byte{}, real[:codec.HeaderLen()]...)
+		ps = append(ps, rapid.SliceOfN(rapid.Byte(), 0, 3-codec.HeaderLen()+1).Draw(t, "psTiny")...)
+		how = "tiny"
+	}
+	slice := []byte{0x41, 0x9a, 0x02, 0x81, 0x82}
+	agg := rtppack.H264StapA
+	if codec == esgen.H265 {
+		slice = []byte{0x02, 0x01, 0xd0, 0x81, 0x82}
+		agg = rtppack.H265AP
+		if len(ps) < 2 {
+			ps = append(ps, 0x01)
+		}
+	}
+	switch rapid.IntRange(0, 3).Draw(t, "psCarrier") {
+	case 0:
+		return fmt.Sprintf("hostile-parameter-set:%s:type%d:single", how, typ), ps
+	case 1:
+		return fmt.Sprintf("hostile-parameter-set:%s:type%d:alone-in-aggregate", how, typ), agg([][]byte{ps})
+	case 2:
+		return fmt.Sprintf("hostile-parameter-set:%s:type%d:aggregate-before-slice", how, typ), agg([][]byte{ps, slice})
+	default:
+		return fmt.Sprintf("hostile-parameter-set:%s:type%d:aggregate-after-slice", how, typ), agg([][]byte{slice, ps})
+	}
 }
 
 // aggregateMutant builds a valid STAP-A / AP over real parameter sets and a
